@@ -143,6 +143,7 @@ Definition spec_run_op1 (r : sstate) (o : op) : sstate * list obs :=
       (sset_lives r (set_nth i (Some (kv_iterate (sview (sh_view h s)) (ob p) (ob s0))) None (ss_lives r)), [])
   | OLNext i n => let '(l, out) := live_next (ss_lives r) i n in (sset_lives r l, [out])
   | OLRel i => (sset_lives r (set_nth i None None (ss_lives r)), [])
+  | OStat h p => (r, [BNone])           (* Stat is outside the property *)
   | OInit d => (sset_store r (supd d sinit s), [])
   end.
 
